@@ -54,10 +54,11 @@ func init() {
 			"(D3) the get-or-compute paths agree: with the value the computing path stores substituted for the cache entry, the path that finds the cached key returns the same term as the path that computes it; the name looked up is the name stored under; it has a constant namespace part and depends on every input the value depends on; the namespaces of contact keys, member keys and base keys differ; " +
 			"(D4) export returns MarshalPrivateKey of the keys stored as accountSK and accountProofSK, in this order; import stores UnmarshalPrivateKey of its first argument as accountSK and of its second as accountProofSK; " +
 			"(D5) for each group type the member key has account-wide inputs only, the device key is a key stored under a device-local name (created from randomness only; named by the group key for multi-member groups), Member()/Device() are the public halves of the keys MemberSign/DeviceSign use; the account group derives from the stored account keys only. " +
-			"Not decided: commutativity of X25519 (that the two accounts' terms denote equal values), unrelatedness of different pairs beyond 'both keys flow in through the agreement', strength of HKDF/Ed25519, implicit flows through branch conditions, concurrent use of the keystore, atomicity of the two Puts of an import.",
+			"(D6) every function that stores a freshly generated or an imported key in the keystore after looking it up (get-or-generate, the import's check-then-store; not the get-or-compute of a derived key, where racing first uses store equal values) holds one lock in write mode from a lookup that reaches the store until the store, without releasing it in between (locks held by all callers count), and all of them use the same lock: two concurrent first uses cannot both find the name missing. " +
+			"Not decided: commutativity of X25519 (that the two accounts' terms denote equal values), unrelatedness of different pairs beyond 'both keys flow in through the agreement', strength of HKDF/Ed25519, implicit flows through branch conditions, concurrency beyond the lookup/store sections of D6 (lock classes are owner type + field, exact for the single device keystore), atomicity of the two Puts of an import against a crash.",
 		Trusted:     []string{"golang.org/x/tools go/packages+go/ssa (v0.29.0), go/types", "libp2p crypto (Un)MarshalPrivateKey/Equals/Type, go-ipfs-keystore Get/Put/Has, aead/ecdh, x/crypto/hkdf behave as documented and are deterministic functions of their arguments unless they read crypto/rand"},
 		Assumptions: []string{"only module code is interpreted; one keystore per secret store; a key returned together with a nil error is usable"},
-		Floors:      map[string]int{"D1": 6, "D2": 6, "D3": 5, "D4": 3, "D5": 12},
+		Floors:      map[string]int{"D1": 6, "D2": 6, "D3": 5, "D4": 3, "D5": 12, "D6": 2},
 		Run:         runC11,
 	})
 }
@@ -276,6 +277,10 @@ type c11Run struct {
 	nPaths int
 
 	ksSites, libSites, agreeSites, condSites map[ssa.Instruction]bool
+	// putKind: what the value stored at a keystore Put site is: "generated" (fresh randomness),
+	// "imported" (supplied by the caller of the import) or "derived" (a deterministic function of
+	// other stored keys and inputs, which any racing first use recomputes identically)
+	putKind map[ssa.Instruction]string
 }
 
 func (r *c11Run) newEval() *c11Eval { return c11NewEval(r.w) }
@@ -294,8 +299,9 @@ func (r *c11Run) done(ev *c11Eval) {
 }
 
 // tally counts the distinct call sites the evaluation went through.
-func (r *c11Run) tally(outs []c11Outcome) {
+func (r *c11Run) tally(ev *c11Eval, outs []c11Outcome) {
 	for _, o := range outs {
+		alias := c11Alias(ev, o.St)
 		for _, e := range o.St.trace {
 			if e.Site == nil {
 				continue
@@ -303,6 +309,20 @@ func (r *c11Run) tally(outs []c11Outcome) {
 			switch {
 			case e.Kind == "ks":
 				r.ksSites[e.Site] = true
+				if e.Key == "Put" && len(e.Args) == 2 {
+					// base keys created earlier on the path count as stored keys, not as randomness
+					al := map[string]*c11Term{}
+					for k, v := range alias {
+						if k != c11Render(e.Args[1]) {
+							al[k] = v
+						}
+					}
+					if c11IsRandom(c11AtomsOf(e.Args[1], al)) {
+						r.putKind[e.Site] = "generated"
+					} else if r.putKind[e.Site] == "" {
+						r.putKind[e.Site] = "derived"
+					}
+				}
 			case e.Kind == "call":
 				r.libSites[e.Site] = true
 				if _, ok := c11Agreements[e.Key]; ok {
@@ -338,7 +358,7 @@ func c11Truncated(outs []c11Outcome) string {
 
 func runC11(c *Ctx) {
 	w := c.W
-	r := &c11Run{c: c, w: w, entry: map[string][]*ssa.Function{}, ksSites: map[ssa.Instruction]bool{}, libSites: map[ssa.Instruction]bool{}, agreeSites: map[ssa.Instruction]bool{}, condSites: map[ssa.Instruction]bool{}}
+	r := &c11Run{c: c, w: w, entry: map[string][]*ssa.Function{}, ksSites: map[ssa.Instruction]bool{}, libSites: map[ssa.Instruction]bool{}, agreeSites: map[ssa.Instruction]bool{}, condSites: map[ssa.Instruction]bool{}, putKind: map[ssa.Instruction]string{}}
 	iface := namedType(w, pkgSecret, "SecretStore")
 	if iface == nil {
 		c.undecided("D1", "SecretStore", token.NoPos, "interface secretstore.SecretStore not found")
@@ -402,6 +422,7 @@ func runC11(c *Ctx) {
 			fmt.Sprintf("contact-group keys %v, member keys %v and the base key names use different name prefixes", c11Keys(nsContact), c11Keys(nsMember)),
 			fmt.Sprintf("the name prefix %q is used for two different kinds of stored keys: a key cached for one purpose is returned for another", clash))
 	}
+	r.ruleFirstUseAtomic()
 	for _, fn := range r.entry["GetAccountProofPublicKey"] {
 		r.adviseProofKey(fn)
 	}
@@ -459,10 +480,10 @@ type c11Import struct {
 	OK       bool
 }
 
-// c11Peel strips single-argument calls (projections such as GetPublic, Raw).
-func c11Peel(t *c11Term) (*c11Term, string) {
+// c11Peel strips single-argument calls (projections such as GetPublic, Raw) until stop holds.
+func c11Peel(t *c11Term, stop func(*c11Term) bool) (*c11Term, string) {
 	chain := ""
-	for strings.HasPrefix(t.Op, "call:") && len(t.Args) == 1 {
+	for !stop(t) && strings.HasPrefix(t.Op, "call:") && len(t.Args) == 1 {
 		inner, ok := t.Args[0].(*c11Term)
 		if !ok {
 			break
@@ -497,7 +518,7 @@ func (r *c11Run) ruleImport(fn *ssa.Function) *c11Import {
 	st := c11NewState()
 	outs := ev.Eval(fn, ev.SymArgs(fn, st), st)
 	defer r.done(ev)
-	r.tally(outs)
+	r.tally(ev, outs)
 	r.debug("import", ev, outs)
 	if why := c11Truncated(outs); why != "" {
 		c.undecided("D1", on, fn.Pos(), "symbolic evaluation of the import did not terminate within its budget: %s", why)
@@ -538,6 +559,12 @@ func (r *c11Run) ruleImport(fn *ssa.Function) *c11Import {
 	}
 	// names stored by the import, over all paths
 	putNames := map[string]bool{}
+	importPuts := map[ssa.Instruction]bool{}
+	defer func() {
+		for site := range importPuts {
+			r.putKind[site] = "imported"
+		}
+	}()
 	nPut := 0
 	var putPos token.Pos
 	badName := ""
@@ -546,6 +573,7 @@ func (r *c11Run) ruleImport(fn *ssa.Function) *c11Import {
 			if e.Kind == "ks" && e.Key == "Put" {
 				nPut++
 				putPos = posOf(e.Site)
+				importPuts[e.Site] = true
 				parts := c11NameParts(e.Args[0])
 				if as := c11AtomsOf(e.Args[0], nil); len(parts) != 1 || len(as.Params)+len(as.KS)+len(as.Calls) > 0 {
 					badName = c11Render(e.Args[0])
@@ -641,20 +669,15 @@ func (r *c11Run) ruleImport(fn *ssa.Function) *c11Import {
 					a, ok1 := t.Args[0].(*c11Term)
 					b, ok2 := t.Args[1].(*c11Term)
 					if isEq && ok1 && ok2 {
-						ra, ca := c11Peel(a)
-						rb, cb := c11Peel(b)
+						// both sides must be the same projection of the two PARSED keys. Comparing the
+						// input byte slices does not count: one Ed25519 key has several valid
+						// encodings (64-byte and legacy 96-byte layout), so different blobs may hold
+						// the same key.
+						isKey := func(x *c11Term) bool { j, _ := keyOf(x); return j >= 0 }
+						ra, ca := c11Peel(a, isKey)
+						rb, cb := c11Peel(b, isKey)
 						ja, _ := keyOf(ra)
 						jb, _ := keyOf(rb)
-						if ja < 0 && jb < 0 { // the blobs themselves
-							for j, bl := range blob {
-								if c11Render(ra) == bl {
-									ja = j
-								}
-								if c11Render(rb) == bl {
-									jb = j
-								}
-							}
-						}
 						if ca == cb && ja >= 0 && jb >= 0 && ja != jb {
 							distinct = true
 						}
@@ -697,7 +720,7 @@ func (r *c11Run) ruleImport(fn *ssa.Function) *c11Import {
 	p := fn.Pos()
 	c.check(m.parse == "", "D1", on+"+parse-both", p, "both blobs are parsed (and parse errors abort) before any key is stored or success is returned", "not both key blobs have been parsed successfully before "+m.parse)
 	c.check(m.typ == "", "D1", on+"+ed25519-both", p, "both parsed keys are tested to be Ed25519 before any key is stored or success is returned", "not both keys have been tested to be of type Ed25519 before "+m.typ+": a non-Ed25519 account key is accepted")
-	c.check(m.distinct == "", "D1", on+"+distinct", p, "the two keys are compared and equal keys are refused before any key is stored or success is returned", "the account key and the proof key have not been compared (and found different) before "+m.distinct+": equal keys are accepted")
+	c.check(m.distinct == "", "D1", on+"+distinct", p, "the two parsed keys are compared and equal keys are refused before any key is stored or success is returned", "the parsed account key and the parsed proof key have not been compared (and found different) before "+m.distinct+": equal keys are accepted (a comparison of the raw blobs does not count: one key has several encodings)")
 	for _, n := range wantNames {
 		c.check(fresh[n] == "", "D1", on+"+fresh-store["+n+"]", p, "Has("+n+") answered false before any key is stored or success is returned", "the keystore has not been asked (with answer: absent) for "+n+" before "+fresh[n]+": an existing account is overwritten or the import succeeds on a used store")
 	}
@@ -747,7 +770,7 @@ func (r *c11Run) ruleExport(fn *ssa.Function, imp *c11Import) {
 	st := c11NewState()
 	outs := ev.Eval(fn, ev.SymArgs(fn, st), st)
 	defer r.done(ev)
-	r.tally(outs)
+	r.tally(ev, outs)
 	r.debug("export", ev, outs)
 	if why := c11Truncated(outs); why != "" {
 		c.undecided("D4", on, fn.Pos(), "symbolic evaluation of the export did not terminate within its budget: %s", why)
@@ -1113,7 +1136,7 @@ func (r *c11Run) ruleContactGroup(fn *ssa.Function, ns map[string]bool, ownKey s
 	st := c11NewState()
 	outs := ev.Eval(fn, ev.SymArgs(fn, st), st)
 	defer r.done(ev)
-	r.tally(outs)
+	r.tally(ev, outs)
 	r.debug("contact", ev, outs)
 	if why := c11Truncated(outs); why != "" {
 		c.undecided("D2", on, fn.Pos(), "symbolic evaluation did not terminate within its budget: %s", why)
@@ -1238,7 +1261,7 @@ func (r *c11Run) ruleMemberDevice(fn *ssa.Function, ns map[string]bool) {
 		}
 		st := c11NewState()
 		outs := ev.Eval(fn, ev.SymArgs(fn, st), st)
-		r.tally(outs)
+		r.tally(ev, outs)
 		r.debug("memberdevice "+tn, ev, outs)
 		if why := c11Truncated(outs); why != "" {
 			c.undecided("D5", construct, fn.Pos(), "symbolic evaluation did not terminate within its budget: %s", why)
@@ -1360,7 +1383,7 @@ func (r *c11Run) ruleAccountGroup(fn *ssa.Function) string {
 	st := c11NewState()
 	outs := ev.Eval(fn, ev.SymArgs(fn, st), st)
 	defer r.done(ev)
-	r.tally(outs)
+	r.tally(ev, outs)
 	r.debug("accountgroup", ev, outs)
 	if why := c11Truncated(outs); why != "" {
 		c.undecided("D5", on, fn.Pos(), "symbolic evaluation did not terminate within its budget: %s", why)
@@ -1470,6 +1493,236 @@ func (r *c11Run) oneKeystore(rule, construct string, fn *ssa.Function, outs []c1
 		return false
 	}
 	return true
+}
+
+// ---------------------------------------------------------------------------
+// D6: look-up-then-store on the keystore is one write-locked critical section
+//
+// Every function that stores a key after having looked the keystore up (get-or-generate,
+// get-or-compute, check-then-import) must hold one lock in write mode from a lookup that
+// reaches the store until the store, without releasing it in between, and all such functions
+// must use the same lock. Otherwise two first uses interleave: both find the name missing,
+// both create a key, the second store overwrites the first, and the first caller keeps (and
+// exports, derives groups from) a key that is not the store's; or an import lands on a store
+// that has just received an account.
+func (r *c11Run) ruleFirstUseAtomic() {
+	c, w := r.c, r.w
+	li := w.locks()
+	looks := map[*ssa.Function][]ssa.Instruction{}
+	stores := map[*ssa.Function][]ssa.Instruction{}
+	for _, fn := range w.ModFuncs {
+		for _, b := range fn.Blocks {
+			for _, in := range b.Instrs {
+				call, ok := in.(*ssa.Call)
+				if !ok {
+					continue
+				}
+				switch calleeKey(call.Common()) {
+				case c11KsGet, c11KsHas:
+					looks[fn] = append(looks[fn], in)
+				case c11KsPut:
+					stores[fn] = append(stores[fn], in)
+				}
+			}
+		}
+	}
+	// helpers that only look up, or only store, count as lookup / store sites of their callers
+	for round := 0; round < 3; round++ {
+		pureLook, pureStore := map[*ssa.Function]bool{}, map[*ssa.Function]bool{}
+		for fn := range looks {
+			if len(stores[fn]) == 0 {
+				pureLook[fn] = true
+			}
+		}
+		for fn := range stores {
+			if len(looks[fn]) == 0 {
+				pureStore[fn] = true
+			}
+		}
+		changed := false
+		has := func(l []ssa.Instruction, x ssa.Instruction) bool {
+			for _, y := range l {
+				if y == x {
+					return true
+				}
+			}
+			return false
+		}
+		for _, fn := range w.ModFuncs {
+			for _, e := range w.callGraph().callees[fn] {
+				site, ok := e.Site.(*ssa.Call)
+				if !ok || staticCallee(site.Common()) == nil || e.Callee == fn {
+					continue
+				}
+				if pureLook[e.Callee] && !has(looks[fn], site) {
+					looks[fn] = append(looks[fn], site)
+					changed = true
+				}
+				if pureStore[e.Callee] && !has(stores[fn], site) {
+					stores[fn] = append(stores[fn], site)
+					changed = true
+				}
+			}
+		}
+		if !changed {
+			break
+		}
+	}
+	var subjects []*ssa.Function
+	for fn := range stores {
+		if len(looks[fn]) > 0 {
+			subjects = append(subjects, fn)
+		}
+	}
+	sort.Slice(subjects, func(i, j int) bool { return subjects[i].String() < subjects[j].String() })
+	if len(subjects) == 0 {
+		c.undecided("D6", "lookup-then-store", token.NoPos, "no module function both looks the keystore up and stores a key")
+		return
+	}
+	wClasses := func(ls lockSet) map[string]bool {
+		out := map[string]bool{}
+		for k := range ls {
+			if strings.HasSuffix(k, "/W") {
+				out[strings.TrimSuffix(k, "/W")] = true
+			}
+		}
+		return out
+	}
+	released := func(fn *ssa.Function, class string, from, to ssa.Instruction) token.Pos {
+		for _, b := range fn.Blocks {
+			for _, in := range b.Instrs {
+				ci, ok := in.(ssa.CallInstruction)
+				if !ok {
+					continue
+				}
+				op, ok := lockOpOf(ci)
+				if !ok || op.Class != class || op.Acquire || op.Deferred || op.Mode != 'W' {
+					continue
+				}
+				if instrReaches(from, in) && instrReaches(in, to) {
+					return posOf(in)
+				}
+			}
+		}
+		return token.NoPos
+	}
+	okSets := map[*ssa.Function]map[string]bool{}
+	whys := map[*ssa.Function]string{}
+	votes := map[string]int{}
+	for _, fn := range subjects {
+		c.analysed(fn)
+		var acc map[string]bool
+		why := ""
+		for _, p := range stores[fn] {
+			atP := wClasses(li.heldAt(p))
+			good := map[string]bool{}
+			var tried []string
+			for _, l := range looks[fn] {
+				if !instrReaches(l, p) {
+					continue
+				}
+				atL := li.heldAt(l)
+				for cl := range atP {
+					if !atL.holds(cl, 'W') {
+						continue
+					}
+					if rp := released(fn, cl, l, p); rp.IsValid() {
+						tried = append(tried, fmt.Sprintf("%s is released at %s between the lookup at %s and the store", cl, c.pos(rp), c.pos(posOf(l))))
+						continue
+					}
+					good[cl] = true
+				}
+				if len(atP) == 0 {
+					tried = append(tried, fmt.Sprintf("no lock is write-held at the store (the lookup at %s holds %v)", c.pos(posOf(l)), atL.list()))
+				} else if len(wClasses(atL)) == 0 {
+					tried = append(tried, fmt.Sprintf("the lookup at %s holds %v, not a write lock (the store holds %v)", c.pos(posOf(l)), atL.list(), li.heldAt(p).list()))
+				}
+			}
+			if len(good) == 0 && why == "" {
+				sort.Strings(tried)
+				if len(tried) == 0 {
+					tried = []string{"no lookup reaches the store"}
+				}
+				why = fmt.Sprintf("the keystore store at %s is not in one write-locked section with a lookup: %s", c.pos(posOf(p)), strings.Join(tried, "; "))
+			}
+			if acc == nil {
+				acc = good
+			} else {
+				for k := range acc {
+					if !good[k] {
+						delete(acc, k)
+					}
+				}
+			}
+		}
+		okSets[fn], whys[fn] = acc, why
+		for k := range acc {
+			votes[k]++
+		}
+	}
+	common := ""
+	for _, k := range c11Keys(map[string]bool(func() map[string]bool {
+		m := map[string]bool{}
+		for k := range votes {
+			m[k] = true
+		}
+		return m
+	}())) {
+		if common == "" || votes[k] > votes[common] {
+			common = k
+		}
+	}
+	var kindOf func(fn *ssa.Function, site ssa.Instruction, depth int) map[string]bool
+	kindOf = func(fn *ssa.Function, site ssa.Instruction, depth int) map[string]bool {
+		out := map[string]bool{}
+		call, _ := site.(*ssa.Call)
+		if call != nil && calleeKey(call.Common()) == c11KsPut {
+			k := r.putKind[site]
+			if k == "" {
+				k = "of unknown origin"
+			}
+			out[k] = true
+			return out
+		}
+		if call != nil && depth < 4 {
+			if cal := staticCallee(call.Common()); cal != nil {
+				for _, p := range stores[cal] {
+					for k := range kindOf(cal, p, depth+1) {
+						out[k] = true
+					}
+				}
+			}
+		}
+		if len(out) == 0 {
+			out["of unknown origin"] = true
+		}
+		return out
+	}
+	for _, fn := range subjects {
+		construct := fnName(fn) + "+lookup-store-atomic"
+		kinds := map[string]bool{}
+		for _, p := range stores[fn] {
+			for k := range kindOf(fn, p, 0) {
+				kinds[k] = true
+			}
+		}
+		if len(kinds) == 1 && kinds["derived"] {
+			// a deterministic recomputation: racing first uses store equal values; not required
+			if len(okSets[fn]) == 0 || !okSets[fn][common] {
+				c.note("advisory: %s looks up and stores a derived key outside a common write-locked section (%s); harmless for C11 because every racer computes the same value", fnName(fn), whys[fn])
+			}
+			continue
+		}
+		what := strings.Join(c11Keys(kinds), "/")
+		switch {
+		case len(okSets[fn]) == 0:
+			c.fail("D6", construct, fn.Pos(), "(%s key) %s: two concurrent first uses (or an import and a first use) can both find the name missing and both store; the loser keeps a key that is no longer the store's", what, whys[fn])
+		case !okSets[fn][common]:
+			c.fail("D6", construct, fn.Pos(), "lookup and store are serialized by %v, the other keystore writers by %s: they do not exclude each other", c11Keys(okSets[fn]), common)
+		default:
+			c.ok("D6", construct, fn.Pos(), "%d lookup(s) and %d store(s) of a %s key share one section with %s write-held", len(looks[fn]), len(stores[fn]), what, common)
+		}
+	}
 }
 
 // adviseProofKey: outside the property statement, reported as a note only.
